@@ -63,6 +63,8 @@ pub fn oracle(case: &SpCase, res: &SpResult) -> (Option<(String, String)>, Vec<&
     let mut ever_recovery = false;
     let mut canon: Option<(u16, u32, u32, i32, u64)> = None; // (ack, wnd, dup count, expected rel to retransmit, t of advancing ack)
     let mut limit_hit_at: Option<u64> = None;
+    // per segment, for each of its transmissions: was it a retransmission with no peer packet at that instant (= by timer)?
+    let mut tx_by_timer: std::collections::BTreeMap<i32, Vec<bool>> = Default::default();
     let mut data_after_limit = false;
     // SACK evidence in any episode: `busy_until` = highest seq sent when a recovery episode (or a timeout) may have
     // started; until the cumulative ack reaches it the endpoint may legitimately ignore further evidence
@@ -159,6 +161,16 @@ pub fn oracle(case: &SpCase, res: &SpResult) -> (Option<(String, String)>, Vec<&
                 // a probe that expired is re-cut into a new (shorter) segment under the same number;
                 // transmissions are counted per cut
                 let same_cut = g.lens.iter().rev().take_while(|l| **l == p.payload.len()).count();
+                // (a probe whose size the peer's own payloads have proven by the time it expires is re-cut with the same
+                // length: its transmissions as a probe, 1 + mtu_probe_max_retransmissions, precede the count)
+                // The probe expires at the first timeout that finds it retransmitted mtu_probe_max_retransmissions times
+                // (retransmissions on duplicate-ACK / SACK evidence count too): everything before that is its life as a probe.
+                let flags = tx_by_timer.entry(k).or_default();
+                flags.push(timer_driven && kind == TxKind::Retransmission);
+                let same_len_recut = if g.first_payload.len() > g.mss_at_first && same_cut == g.lens.len() {
+                    flags.iter().enumerate().position(|(i, f)| *f && i >= 1 + case.sock.probe_retx as usize).unwrap_or(flags.len())
+                } else { 0 };
+                let max_tx = max_tx + same_len_recut;
                 if same_cut > max_tx {
                     viol!("too-many-transmissions", "log #{}: seq {} ({} bytes) transmitted {} times, the limit is 1 + max_retransmissions = {}", r.idx, p.seq, p.payload.len(), same_cut, max_tx);
                 }
